@@ -25,8 +25,19 @@ let dump buf (s : st) slot =
                                    (b2i c.c_q) (b2i c.c_u) (b2i c.c_z) (n2i c.c_valver) (n2i c.c_verWhen)
                                    (b2i (isUpToDate s (i2n i, i2n j))) (n2i c.c_val) (keys c.c_deps))) b.s_ces) s.subs
 
+(* specification side (C18_Spec.v): stages and validity only *)
+let gdump buf (g : gst) slot =
+  Buffer.add_string buf (Printf.sprintf "S%d sys=%d\n" slot (n2i g.g_sys));
+  List.iteri (fun i (b : gsub) ->
+      Buffer.add_string buf (Printf.sprintf " B%d st=%d\n" i (n2i b.gs_stage));
+      List.iteri (fun j _ -> Buffer.add_string buf (Printf.sprintf "  D%d\n" j)) b.gs_dvs;
+      List.iteri (fun j _ -> Buffer.add_string buf (Printf.sprintf "  C%d ok=%d\n" j (b2i (gvalid g (i2n i, i2n j))))) b.gs_ces) g.g_subs
+let rec set_nth l i x = match l with [] -> [] | h :: t -> if i = 0 then x :: t else h :: set_nth t (i - 1) x
+
 let () =
   let cf = { fix_auto = Sys.argv.(1) = "1"; fix_copyver = Sys.argv.(2) = "1" } in
+  let spec = Array.length Sys.argv > 3 && Sys.argv.(3) = "spec" in
+  let gs = ref [] in
   let w = ref [] in
   let out = Buffer.create 65536 in
   (try while true do
@@ -35,8 +46,9 @@ let () =
       (match toks with
        | "SEQ" :: id :: nslot :: nsub :: _ ->
           w := List.init (int_of_string nslot) (fun _ -> st0 (i2n (int_of_string nsub)));
+          gs := List.map abs !w;
           Buffer.add_string out ("SEQ " ^ id ^ "\n")
-       | "END" :: _ -> List.iteri (fun i s -> dump out s i) !w; Buffer.add_string out "END\n"
+       | "END" :: _ -> (if spec then List.iteri (fun i g -> gdump out g i) !gs else List.iteri (fun i s -> dump out s i) !w); Buffer.add_string out "END\n"
        | [] -> ()
        | t :: rest ->
           let a = ref (List.map int_of_string (match t with "On" -> (match rest with s :: _ :: r -> s :: r | _ -> []) | _ -> rest)) in
@@ -78,11 +90,31 @@ let () =
             | "AS" -> let d = nn () in Assign (d, nn ())
             | _ -> let d = nn () in Move (d, nn ()) in
           ignore neg;
-          let (w', threw) = wstep cf !w wo in
-          w := w';
-          Buffer.add_string out (Printf.sprintf "T %d\n" (b2i threw));
           let touched = (match wo with On (sl, _) -> [n2i sl] | CopyC (d, s) | Assign (d, s) | Move (d, s) -> [n2i d; n2i s]) in
-          List.iteri (fun i s -> if List.mem i touched then dump out s i) !w);
+          let (w', threw) = wstep cf !w wo in
+          if spec then begin
+            let n = List.length !gs in
+            let inr i = i >= 0 && i < n in
+            let (gthrew, lg) =
+              (match wo with
+               | On (sl, o) -> let i = n2i sl in
+                               if inr i then (let (g', t) = gstep (List.nth !gs i) o in
+                                              let l = legal cf (List.nth !w i) o in gs := set_nth !gs i g'; (t, l)) else (true, true)
+               | CopyC (d, s) -> let d = n2i d and s = n2i s in
+                                 if inr d && inr s then (let l = copy_ok cf (List.nth !w s) in gs := set_nth !gs d (g_copy (List.nth !gs s)); (false, l)) else (true, true)
+               | Assign (d, s) -> let d = n2i d and s = n2i s in
+                                  if inr d && inr s then (if d = s then (false, true) else
+                                                            (let l = copy_ok cf (List.nth !w s) in gs := set_nth !gs d (g_copy (List.nth !gs s)); (false, l))) else (true, true)
+               | Move (d, s) -> let d = n2i d and s = n2i s in
+                                if inr d && inr s then (let a = List.nth !gs d and b = List.nth !gs s in gs := set_nth (set_nth !gs d b) s a; (false, true)) else (true, true)) in
+            Buffer.add_string out (Printf.sprintf "T %d\nL %d\n" (b2i gthrew) (b2i lg));
+            List.iteri (fun i g -> if List.mem i touched then gdump out g i) !gs
+          end;
+          w := w';
+          if not spec then begin
+            Buffer.add_string out (Printf.sprintf "T %d\n" (b2i threw));
+            List.iteri (fun i s -> if List.mem i touched then dump out s i) !w
+          end);
       if Buffer.length out > 1000000 then (print_string (Buffer.contents out); Buffer.clear out)
     done with End_of_file -> ());
   print_string (Buffer.contents out)
